@@ -29,6 +29,15 @@ CHECKS = {
          "terminator; runs restarted with --read_assignments are compared file by file with the run that saved them.",
          "Trusted: field-wise state projections in props/c15.py. Non-ASCII strings and negative/non-representable penalty scores are outside the domain.",
          "DESIGN.md §3 C15"),
+ "C17": ("model_checking",
+         "explicit-state BFS over get_id/increment call histories on the real FeatureIdStorage/ExcludingIdDistributor (state = id tables), plus pipeline fixed-point chains (output annotation fed back as reference)",
+         "All call histories of length <=3/4 over 12 exon keys (2 chromosomes x 3 exons x 2 strands, 5 preloaded from reference exon_id attributes, "
+         "reference ids in IsoQuant's own style) are executed on fresh real objects; in every state the returned id must be the stored string, a "
+         "function of the key, injective across keys and chromosomes, and reference ids preserved. Pipeline level: multi-chromosome worlds with "
+         "novel exons shared by several transcripts, run 2-3 times feeding extended_annotation.gtf back as --genedb; gene/transcript ids unique "
+         "per file, novel ids never reuse a reference id for different exons, exon_id <-> (chr,start,end,strand) bijective over both GTFs.",
+         "Trusted: GTF parser in vlib/run.py; state merging argument in evidence.assumptions.",
+         "DESIGN.md §3 C17"),
 }
 
 NOT_YET = {}
